@@ -543,8 +543,14 @@ class Interp:
                 return None
             exts = [x[0] for x in inners]
             ext = exts[0]
-            if any(e != ext for e in exts[1:]):
-                ext = Poly.app("min", *exts)
+            for e2 in exts[1:]:
+                if e2 == ext:
+                    continue
+                d = ext - e2
+                if d.is_const():
+                    ext = e2 if d.as_const() > 0 else ext
+                else:
+                    ext = Poly.app("min", ext, e2)
             return ext, (lambda i: TupleV([x[1](i) for x in inners])), ("zip", [x[2] for x in inners], exts)
         if isinstance(it, Term) and it.op == "combinations2":
             n = it.args[0].p
@@ -745,9 +751,7 @@ class Interp:
         elif isinstance(v, TupleV):
             cont.extend(Elem(x) for x in v.items)
         elif isinstance(v, Grid) and v.ndim >= 1 and len(v.dims[0]) == 1:
-            idx0, ext = v.dims[0][0]
-            el = Grid(v.dims[1:], v.elem) if v.ndim > 1 else v.elem
-            cont.append(Loop(idx0, ext, [Elem(el)], None, ("grid", v)))
+            self._splice_into(cont, v)
         else:
             cont.append(Splice(v))
 
@@ -906,6 +910,16 @@ class Interp:
             items.extend(Elem(x) for x in v.items)
         elif isinstance(v, Grid) and v.ndim >= 1 and len(v.dims[0]) == 1:
             idx0, ext = v.dims[0][0]
+            if v.ndim == 1 and isinstance(v.elem, Term) and v.elem.op == "piecewise":
+                segs = self.transfer.segments(self, v)
+                if segs is not None:
+                    for st, ln, fn in segs:
+                        if ln == Poly.const(1):
+                            items.append(Elem(fn(Poly.const(0))))
+                        else:
+                            j = self.fresh_idx("i")
+                            items.append(Loop(j, ln, [Elem(fn(Poly.atom(j)))], None, ("segment", v)))
+                    return
             el = Grid(v.dims[1:], v.elem) if v.ndim > 1 else v.elem
             items.append(Loop(idx0, ext, [Elem(el)], None, ("grid", v)))
         else:
